@@ -59,6 +59,7 @@ reg(PropertySpec(
 
 reg(PropertySpec(
     "C02", "Weights, evidence and ESS are exact functionals of the per-sample log-densities",
+    functions=["samples:Samples.rejection_sample"],
     lean=["C02.lean", "@range"],
     native=_lazy("checks.native_misc", "native_C02"),
     technique="contract-based deductive verification: the bodies of logsumexp, effective_sample_size, Samples.compute_weights, scaled_weights, efficiency and the acceptance test of rejection_sample are translated from the ast to Lean definitions on every run; spec equalities, bounds, invariances and exp-argument range obligations are Lean/Mathlib theorems; bounded native stand-in vs mpmath",
